@@ -53,6 +53,7 @@ structure World where
   handling the last fetched entry; handled after the join it sees the full log length and lifts the
   status to len/len, at a moment the trace does not record (seen under CPU load) -/
   lateLoad : List Nat := []
+  maxHist : Option Int := none                    -- `maxhist=N`: the stores of the scenario are built with MaxHistory = N
   justLoaded : List Nat := []                     -- stores whose next observation is the first one after a restart + Load
   gone : List Nat := []                           -- blocks nobody holds any more (`dropblock`)
   unreachFail : Bool := false                     -- a block nobody holds is reported as not found at once (`unreach=fail`)
@@ -127,7 +128,8 @@ def World.onScn (_ : World) (toks : List String) : World :=
   let acl : Acl := if aclS == "*" then { wildcard := true } else { ids := (commaList aclS).map peerNum }
   let peers := (commaList (arg toks "peers")).map peerNum
   { scn := toks.getD 1 "?", kind := kind, acl := acl, dbKinds := [(0, kind)], dbAcls := [(0, acl)],
-    stores := peers.map (fun p => (p, { kind := kind })), unreachFail := arg toks "unreach" == "fail" }
+    stores := peers.map (fun p => (p, { kind := kind })), unreachFail := arg toks "unreach" == "fail",
+    maxHist := (arg? toks "maxhist").map parseInt }
 
 /-- model `AddOperation` for the declared entry `n`, compared with the implementation's entry -/
 def World.modelAdd (w : World) (p : Nat) (n : Nat) : World :=
@@ -684,6 +686,9 @@ def World.onRestarted (w : World) (toks : List String) : World :=
   let r := toks.getD 2 ""
   let cancelled := w.pending.contains "ctx=cancelled"
   let amount : Int := match w.pending.getD 2 "" with | "" => -1 | a => if a.startsWith "ctx=" then -1 else parseInt a
+  -- the limit `Load` works with: the call's, or - when that is not positive - the store's maximum-history
+  -- option (`loadAmount`, tied to the Go text: GenLoad)
+  let amount := loadAmount amount w.maxHist
   let w := if arg toks "identity" != "true" then w.fail "C05" "identity" s!"peer {p} has a different identity after restart" else w
   let w := { w with justLoaded := w.key p :: w.justLoaded }
   let w := if w.nDb > 1 then w.reloadOtherDbs p else w
@@ -795,7 +800,7 @@ def World.step (w : World) (line : String) : World :=
     let p := peerNum (toks.getD 1 "")
     -- what the next observation must list (C15): the newest `n` entries of the persisted log — the
     -- log reachable from the cached heads — whatever part of it the store held before the call (F36)
-    let n := parseInt (w.pending.getD 2 "-1")
+    let n := loadAmount (parseInt (w.pending.getD 2 "-1")) w.maxHist
     let full := match (w.store p).reopened.load w.acl w.fetchAll (-1) with
       | .ok sf => (values sf.log).map (·.hash)
       | .error _ => []
